@@ -313,6 +313,12 @@ func TestVerif(t *testing.T) {
 	rec(nil)
 	hists = append(hists, []string{})
 	var n, nodes int64
+	maxBound := bound
+	startBound := ctx.Param("start_bound", maxBound) // thorough: iterative deepening from the quick tier's bound
+	completed := startBound - 1
+	defer func() { ctx.R.Extra["bound_completed"] = completed }()
+	for bound = startBound; bound <= maxBound; bound++ {
+	all := true
 	for _, plan := range plans {
 		for _, h := range hists {
 			n++
@@ -321,6 +327,7 @@ func TestVerif(t *testing.T) {
 			}
 			if ctx.Expired() {
 				ctx.R.States = ctx.R.Evals + nodes
+				ctx.Cap(fmt.Sprintf("time budget reached at bound %d; complete up to bound %d", bound, completed))
 				return
 			}
 			var res result
@@ -350,12 +357,17 @@ func TestVerif(t *testing.T) {
 				ctx.Infra("plan=%v events=%v: %s", plan, h, x)
 			}
 			if st.Capped {
-				ctx.Cap("time budget")
+				all = false
+				ctx.Cap(fmt.Sprintf("time budget reached at bound %d", bound))
 			}
 			ctx.R.Trans += st.Steps
 			nodes += st.Nodes
 		}
 	}
+	if !all {
+		break
+	}
+	completed = bound
+	}
 	ctx.R.States = nodes
-	ctx.R.Extra["bound_completed"] = bound
 }
